@@ -51,6 +51,33 @@ theorem discFail_cases (w : World) (ctx : StepCtx) :
 @[simp] theorem discFail_fut (w : World) (ctx : StepCtx) : (w.discFail ctx).fut = w.fut := by
   rcases discFail_cases w ctx with ⟨h, _⟩ | ⟨h, _⟩ <;> rw [h] <;> rfl
 
+theorem failStep_cases (w : World) (ctx : StepCtx) (step : Outbound.Step) :
+    w.failStep ctx step = w ∨ w.failStep ctx step = w.handleDisconnect := by
+  cases step with
+  | retained id off len st =>
+    show w.discFail ctx = w ∨ w.discFail ctx = w.handleDisconnect
+    rcases discFail_cases w ctx with ⟨e, _⟩ | ⟨e, _⟩
+    · exact .inl e
+    · exact .inr e
+  | control a st => exact .inr rfl
+  | release id rc st => exact .inr rfl
+@[simp] theorem failStep_retained (w : World) (ctx : StepCtx) (id off len : Nat) (st : SendState) :
+    w.failStep ctx (.retained id off len st) = w.discFail ctx := rfl
+@[simp] theorem failStep_control (w : World) (ctx : StepCtx) (a : ControlAction) (st : SendState) :
+    w.failStep ctx (.control a st) = w.handleDisconnect := rfl
+@[simp] theorem failStep_release (w : World) (ctx : StepCtx) (id rc : Nat) (st : SendState) :
+    w.failStep ctx (.release id rc st) = w.handleDisconnect := rfl
+@[simp] theorem failStep_wakes (w : World) (ctx : StepCtx) (s : Outbound.Step) : (w.failStep ctx s).wakes = w.wakes := by
+  rcases failStep_cases w ctx s with h | h <;> rw [h] <;> rfl
+@[simp] theorem failStep_out (w : World) (ctx : StepCtx) (s : Outbound.Step) : (w.failStep ctx s).out = w.out := by
+  rcases failStep_cases w ctx s with h | h <;> rw [h] <;> rfl
+@[simp] theorem failStep_nets (w : World) (ctx : StepCtx) (s : Outbound.Step) : (w.failStep ctx s).nets = w.nets := by
+  rcases failStep_cases w ctx s with h | h <;> rw [h] <;> rfl
+@[simp] theorem failStep_fut (w : World) (ctx : StepCtx) (s : Outbound.Step) : (w.failStep ctx s).fut = w.fut := by
+  rcases failStep_cases w ctx s with h | h <;> rw [h] <;> rfl
+@[simp] theorem failStep_slot (w : World) (ctx : StepCtx) (s : Outbound.Step) : (w.failStep ctx s).slot = w.slot := by
+  rcases failStep_cases w ctx s with h | h <;> rw [h] <;> rfl
+
 @[simp] theorem discDone_zero (w : World) : w.discDone 0 = w := rfl
 @[simp] theorem discDone_one (w : World) : w.discDone 1 = w := rfl
 @[simp] theorem discDone_two (w : World) : w.discDone 2 = w.handleDisconnect := rfl
